@@ -62,3 +62,29 @@ add("C17", "fault_enumeration", "schedule / fault enumeration on a deterministic
 add("C18", "fault_enumeration", "exhaustive enumeration of failure/reset sequences + fault scripts on the virtual-time loop against an explicit timing model",
     "All failure()/reset() sequences up to length 14 x 7 caps (and random ones to length 200) against min(2^(n-1), max_delay); all outcome/loss scripts up to length 6/7 x 4 configurations and Hypothesis scripts, with virtual timestamps of attempts checked against the back-off lower/upper bounds and the double-loss breaker.",
     "Virtual clock substituted for the manager's wall clock from outside; slack 1e-6 s; no upper bound asserted after a loss.", "DESIGN.md §4 C18")
+
+# --- additions made while strengthening the checks against independently seeded changes (DESIGN.md section 9) -------------------
+_ALSO = {
+    "C01": "Also: frames with wrong HCS but right FCS/length, 1-8 octet addresses, check sequences 00 00, forced last octet 7E/7D, embedded frames; accessor-order independence; returned lists and headers kept by the caller stay intact.",
+    "C02": "Also: 2-3 reader instances fed alternately; virtual wall-clock gaps between calls; returned lists kept by the caller; embedded frames, special check sequences.",
+    "C03": "Also: call histories over bytes / in-place mutated bytearray buffers incl. failing calls; windows up to 192 KiB whose register is 0x0000 at 2^k block boundaries.",
+    "C04": "Also: reader history before the readout, accessor order before is_valid, 8-bit / class-boundary characters and up to 8 escapes in the identification line, LF-only readouts, checksums of transformed copies.",
+    "C05": "Also: two interleaved reader instances, virtual clock gaps, up to 3000 minimal readouts per call, data lines of 1000-4000 characters.",
+    "C06": "Also: frames around/beyond 2047 octets, same-length frames in a row, last octet 7E/7D, frames without room for control/HCS, 7D 7D pairs at the limit with the cut between them; returned lists re-examined after later calls; virtual clock gaps.",
+    "C07": "Also: other decoders run first in the same process, results scribbled on by the caller and decoded again, process time zone switched, full 7-bit ASCII and 255-character texts, two decodes interleaved on two threads at a drawn line.",
+    "C08": "Also: preludes, scribbled results, time zones, layer-meaningful register values and texts, all-ASCII lists, texts up to 255 characters, deterministic thread interleavings.",
+    "C09": "Also: preludes, scribbled results, time zones, permuted element order, lists without meter type, long null padding, 255-character texts, deterministic thread interleavings.",
+    "C10": "Also: a twin date-time (same civil fields, or the same instant with another deviation) decoded just before, decoding on a non-main thread, process time zone switched.",
+    "C11": "Also: blocks of up to 3000 data sets (one line or many), maximum value/unit lengths, process time zone switched with non-existent local times, other decoders (also with unnamed OBIS codes) run first, results scribbled on.",
+    "C12": "Also: a bystander AutoDecoder, invalid-but-decodable messages, segmented frames, 2 KiB / 10 KiB genuine payloads, byte-identical repeats, runs of up to 300 rejected payloads, results scribbled on; genuine lists with register values and texts that are meaningful to another layer.",
+    "C13": "Also: candidates as list or tuple, the caller's list reused for a second protocol, protocols built by han.tcp_connection_factory, up to 1500 messages queued before the queue is read, virtual clock gaps.",
+    "C14": "Also: every protocol again after a reader was selected, DEBUG logging on/off per case and DEBUG configured before import (fresh interpreters), damaged identification lines, long single-octet runs, atheris campaigns.",
+    "C15": "Also: CPU-time budget for time spent in C code, worker heartbeat so a call that never returns is reported (sig hang), structures nested to depth 100, digit runs, every short payload enumerated, atheris campaigns.",
+    "C16": "Also: bystander reader instances, near-maximum stuffed frames, 4-octet addresses and zero-HCS frames among the clean frames, readouts just below 8191 bytes with read boundaries in the end line, 19 P1 noise families.",
+    "C17": "Also: loss where closing the dead transport raises, a streak of 1200/5000 failed attempts, busy-loop detection, task high-water mark compared across run lengths, an unrelated second manager on the same loop.",
+    "C18": "Also: failures raised as eight exception types, a second strategy instance used in between, streaks of 1030-5000 failure() calls.",
+    "C19": "Also: unfinished message followed by 160 KiB of each of the 256 octet values, all-different message streams, overrun frame followed by flags, segmented frames.",
+    "C20": "Also: object histories (create/parse/filter_group_cde/copy/hash in any order), decorated separators in the malformed grammar, carry pairs.",
+}
+for _pid, _txt in _ALSO.items():
+    CHECKS[_pid]["text"] = CHECKS[_pid]["text"] + " " + _txt
